@@ -215,7 +215,12 @@ pub fn job_c06(out_dir: &str, tier: &str, seed: u64) {
         }
         c
     };
-    let inputs = gen::corpus(&mut rng, if quick { 36 } else { 70 }, if quick { 5000 } else { 40000 });
+    let mut inputs = gen::corpus(&mut rng, if quick { 36 } else { 70 }, if quick { 5000 } else { 40000 });
+    // transition coverage from the specification (spec/TokCover.tla): every control state of the syntax table x every
+    // word, run by the tag scanner (H alone) and by the lexer (H + O)
+    let cover = gen::cover_inputs(quick, false);
+    let cstride = if quick { 3 } else { 1 };
+    for (i, (inp, _, _)) in cover.iter().enumerate() { if i % cstride == 0 { inputs.push(inp.clone()); } }
     for (ii, input) in inputs.iter().enumerate() {
         let nh = if ii < 4 * gen::FRAGS.len() { 3 } else { 2 };
         for hi in 0..nh {
